@@ -258,6 +258,24 @@ func (w *World) streamCorruption(kind string, cur *pb.Vertex, seen []*pb.Vertex)
 		copy(p[:], w.rng.Bytes(32))
 		nv, _ := accountant.NewVertex(trx, p, p, v.Weight+1, adv)
 		return []*pb.Vertex{gossip.VerifVertexToProto(&nv)}
+	case "unknown-right-parent", "unknown-left-parent":
+		// only ONE declared parent is unknown: the other one is the zero hash (as in genesis) or a known vertex
+		v := gossip.VerifProtoToVertex(cur)
+		trx, err := transaction.New("stream", spice.Melange{Currency: 1}, nil, w.WAddr[0], w.Wallets[1%len(w.Wallets)])
+		if err != nil {
+			return nil
+		}
+		var p, other Hash
+		copy(p[:], w.rng.Bytes(32))
+		if len(seen) > 1 && w.rng.Chance(0.5) {
+			copy(other[:], seen[0].Hash) // a vertex the stream has already delivered
+		}
+		l, r := other, p
+		if kind == "unknown-left-parent" {
+			l, r = p, other
+		}
+		nv, _ := accountant.NewVertex(trx, l, r, v.Weight+1, adv)
+		return []*pb.Vertex{gossip.VerifVertexToProto(&nv)}
 	case "second-self-sealed":
 		v := gossip.VerifProtoToVertex(cur)
 		trx, err := transaction.New("stream", spice.Melange{Currency: 1}, nil, w.WAddr[0], adv)
